@@ -1,4 +1,5 @@
 mod api;
+mod gen;
 mod facets;
 mod model;
 mod pool;
@@ -65,6 +66,7 @@ fn main() {
     let rep = match facet.as_str() {
         "C03" => facets::c03::run(&opts),
         "C04" => facets::c04::run(&opts),
+        "C10" => facets::c10::run(&opts),
         other => {
             eprintln!("unknown facet {}", other);
             std::process::exit(2)
